@@ -411,6 +411,60 @@ def replay_in_fresh_process(prop: str, path: str) -> tuple[int, str]:
     return p.returncode, p.stdout + p.stderr
 
 
+def run_history(prop: str, tier: str, base_seed: int, indices):
+    """Execute the runs with the given indices one after the other in THIS process (no fork) and return the RunResult of the last
+    one: the replay of a violation that needs the state an earlier run of the same process left behind in the system under
+    test (a class-level buffer, a module-level cache)."""
+    import_scoda()
+    eng = get_engine(prop)
+    r = None
+    for i in indices:
+        r = guarded(eng.run_one, derive_seed(prop, tier, base_seed, i), tier, i,
+                    timeout_s=eng.timeout_for(i, tier) if hasattr(eng, "timeout_for") else None)
+    return r
+
+
+def history_in_fresh_process(prop: str, path: str) -> tuple[int, str]:
+    env = dict(os.environ)
+    env["PYTHONHASHSEED"] = "0"
+    p = subprocess.run([PYTHON, os.path.join(VERIF_DIR, "check.py"), prop, "--replay", path, "--quiet"],
+                       capture_output=True, text=True, env=env, timeout=900)
+    return p.returncode, p.stdout + p.stderr
+
+
+def history_replay_for(prop, tier, base_seed, cand, chunk=100):
+    """A violating run that does not reproduce from its own trace: look for the shortest suffix of its worker chunk (the runs
+    the same process executed just before it) after which it does, in a fresh process. Returns (path, length) or None."""
+    idx = cand["index"]
+    start = idx - idx % chunk
+    viol = Violation.from_json(cand["violation"])
+    os.makedirs(os.path.join(VERIF_DIR, "replays"), exist_ok=True)
+    path = os.path.join(VERIF_DIR, "replays", f"{prop}-{viol.cls}-history-{cand['seed']:016x}.json")
+    tried = []
+    for n in (2, 3, 5, 9, 17, 33, 65, chunk):
+        lo = max(start, idx - n + 1)
+        if lo in tried:
+            continue
+        tried.append(lo)
+        doc = {"kind": "history", "engine": get_engine(prop).name if hasattr(get_engine(prop), "name") else prop,
+               "property": prop, "tier": tier, "verif_seed": base_seed, "run_indices": list(range(lo, idx + 1)),
+               "expected": viol.to_json(), "scoda_tree": repo_tree_id(),
+               "note": "the last run violates the property only after the earlier ones have run in the same process: the system "
+                       "under test carries state from one call to later, unrelated calls"}
+        with open(path, "w") as f:
+            json.dump(doc, f, indent=1, default=_jdefault)
+        rc, _ = history_in_fresh_process(prop, path)
+        if rc == EXIT_VIOLATION:
+            return path, idx - lo + 1
+        if lo == start:
+            break
+    try:
+        os.remove(path)
+    except OSError:
+        pass
+    return None
+
+
 # --------------------------------------------------------------------------- batch driver
 
 def run_batch(prop: str, tier: str, base_seed: int, total_runs: int, wall_budget_s: float,
@@ -527,7 +581,7 @@ def classify_and_report(prop: str, tier: str, base_seed: int, agg: dict, quiet=F
             except BaseException as e:
                 agg["harness"].append({"error": f"replay of run {cand['index']} crashed: {e!r}"})
                 break
-            if same_violation(r.violation, cviol):
+            if same_violation(r.violation, cviol) and not os.environ.get("VERIF_SELFTEST_FORCE_HISTORY"):
                 v, viol, trace = cand, cviol, cand["trace"]
                 break
             not_reproduced.append(cand["index"])
@@ -535,8 +589,25 @@ def classify_and_report(prop: str, tier: str, base_seed: int, agg: dict, quiet=F
             agg["stats"]["probe/violating_runs_that_depend_on_an_earlier_run_of_the_process"] += len(not_reproduced)
         if v is None:
             if not_reproduced:
-                agg["harness"].append({"error": f"violation {cls} of runs {not_reproduced[:6]} did not reproduce on replay "
-                                                f"(state carried over from earlier runs of the worker process?)"})
+                # no member of the class stands on its own: replay the history of the worker process instead
+                hist = None
+                for cand in item["cands"][:3]:
+                    try:
+                        hist = history_replay_for(prop, tier, base_seed, cand)
+                    except BaseException as e:
+                        agg["harness"].append({"error": f"history replay of run {cand['index']} crashed: {e!r}"})
+                        hist = None
+                    if hist is not None:
+                        cviol = Violation.from_json(cand["violation"])
+                        out_lines.append(f"VIOLATION property={prop} replay={hist[0]}")
+                        out_lines.append(f"  class={cls} count_in_batch={item['count']} needs_the_{hist[1] - 1}_runs_before_it_in_the_same_process "
+                                         f"detail={cviol.detail[:300]}")
+                        replays.append(hist[0])
+                        exit_code = EXIT_VIOLATION
+                        break
+                if hist is None:
+                    agg["harness"].append({"error": f"violation {cls} of runs {not_reproduced[:6]} did not reproduce on replay, "
+                                                    f"neither alone nor after the runs that preceded it in its work chunk"})
             continue
         try:
             small, used = shrink(prop, trace, viol)
